@@ -327,7 +327,30 @@ def handleGlue (i o : List String) : String :=
     | _, _ => "BAD glue fields"
   | _, _ => "BAD glue arity"
 
+/-- `cr <reason> => <closeReason(reason)> <utf8.ValidString(reason)> <strings.ToValidUTF8(reason)>` — the real
+    `webbridge.closeReason`, Go's validator and sanitiser against `closeReason`, `ValidUTF8`, `toValidUTF8`. -/
+def handleCR (i o : List String) : String :=
+  match i, o with
+  | [_, r], [cr, valid, tv] =>
+    match parseHex r, parseHex cr, parseHex tv with
+    | some r, some cr, some tv =>
+      -- the property's demands on the observed reason: readable by a client (valid UTF-8), fits a control frame
+      if !ValidUTF8 cr then "VIOL close-reason-invalid-utf8 (clients fail the connection instead of reporting code and reason)"
+      else if cr.length > 123 then s!"VIOL close-reason-too-long len={cr.length}"
+      else if !isPrefixOfB cr (toValidUTF8 r) then "VIOL close-reason-not-a-prefix (of the sanitised reason)"
+      else if (toValidUTF8 r).length > 123 && cr.length < 120 then s!"VIOL close-reason-overcut len={cr.length} (more than 3 bytes lost)"
+      -- model = implementation
+      else if (valid = "1") != ValidUTF8 r then s!"DIFF model=valid:{ValidUTF8 r}"
+      else if tv != toValidUTF8 r then s!"DIFF model=toValidUTF8:{toHex (toValidUTF8 r)}"
+      else if cr != closeReason r then s!"DIFF model=closeReason:{toHex (closeReason r)}"
+      else
+        let br := if (toValidUTF8 r).length > 123 then (if cr.length < 123 then "cr-backed-off" else "cr-cut") else "cr-short"
+        s!"OK nt b={br}{if ValidUTF8 r then "" else "-sanitised"}"
+    | _, _, _ => "BAD cr fields"
+  | _, _ => "BAD cr arity"
+
 def handle : Handler
+  | "cr" :: i, o => handleCR ("cr" :: i) o
   | "glue" :: i, o => handleGlue ("glue" :: i) o
   | "http" :: i, o => handleHTTP ("http" :: i) o
   | "ws" :: i, o => handleWS ("ws" :: i) o
